@@ -128,6 +128,22 @@ def wl_bloom_pairs(ctx, rng, case):
                     res.add("only-in-the-result")
                     ctx.check(snap(A, pa) == sa and snap(B, pb) == sb, "adding to the result of a set operation changed an operand (shared storage)")
                     ctx.count("aliasing_checks")
+        # a filter as operand of ITSELF: the result is a new filter with the same positions, and it owns its storage
+        import gc
+
+        for name in ("union", "intersection"):
+            r = getattr(A, name)(A)
+            ctx.check(r is not None and r is not A and bl.bits_of(r) == ba, f"{name} of a filter with itself is not a new filter with the same positions")
+            if r.elements_added >= 0:
+                r.add("only-in-the-self-result")
+                ctx.check(snap(A, pa) == sa, f"adding to the result of a.{name}(a) changed a (shared storage)")
+                r.clear()
+                ctx.check(snap(A, pa) == sa, f"clearing the result of a.{name}(a) changed a (shared storage)")
+            del r
+            gc.collect()
+            ctx.check(snap(A, pa) == sa and all(A.check(kx) for kx in keys if kx in (case.desc.get("_added_a") or [])),
+                      f"a is no longer usable after the result of a.{name}(a) was dropped")
+            ctx.count("self_operand_checks")
         # foreign operands
         for foreign in (1, "x", None, [1], P.CountMinSketch(width=2, depth=2), P.CuckooFilter(capacity=2)):
             for name in ("intersection", "union", "jaccard_index"):
@@ -290,5 +306,5 @@ PROP = Prop(
                  "'different hash function' pairs are two different strategies of the zoo (they differ on every key, including the library's probe key)",
                  "mixing a counting with a plain Bloom filter is outside the claim and not generated"],
     required=["compatible_pairs_checked", "incompatible_pairs_checked", "immutability_checks", "foreign_type_rejections", "identical_pairs_checked",
-              "hash_pairs_sharing_part_of_the_probe_hashes"],
+              "hash_pairs_sharing_part_of_the_probe_hashes", "self_operand_checks", "aliasing_checks"],
 )
